@@ -319,6 +319,23 @@ func propCodec(t *rapid.T) {
 		if got := lib.ScInt(secp256k1.NewScalarFromUint64(u)); got.Cmp(new(big.Int).SetUint64(u)) != 0 {
 			t.Fatalf("NewScalarFromUint64(%d) = %x", u, got)
 		}
+		// what a constructor returns is the caller's: small constants are built over and over (loop counters,
+		// 1, 2, the cofactor), updated in place, and built again
+		small := uint64(rapid.IntRange(0, 300).Draw(t, "small"))
+		for _, v := range []uint64{u, small} {
+			a := secp256k1.NewScalarFromUint64(v)
+			switch rapid.IntRange(0, 2).Draw(t, "update") {
+			case 0:
+				a.Add(a, secp256k1.NewScalarFromUint64(v+1))
+			case 1:
+				a.Invert(a)
+			default:
+				a.Negate(a)
+			}
+			if got := lib.ScInt(secp256k1.NewScalarFromUint64(v)); got.Cmp(new(big.Int).SetUint64(v)) != 0 {
+				t.Fatalf("NewScalarFromUint64(%d) = %x after an earlier result of the same call was updated in place", v, got)
+			}
+		}
 	case "zero-one":
 		stat.Case("codec", classes, false, []byte(which), nil)
 		if r := sc.Zero(); r != sc || lib.ScInt(sc).Sign() != 0 || sc.IsZero() != 1 {
